@@ -240,7 +240,7 @@ def d1_ok(line, a_start, a_end):
     return True
 
 
-LEFTS = ['', ' ', '\t', 'foo ', 'foo: ', 'some text ', 'lorem ipsum dolor sit amet, consectetur adipiscing elit, sed do ' * 3, '<div class="a b c d e f" id="x" data-k="v w" hidden>', '<div>', '<div class="x">', '</p>', '<br/>', '<input disabled>', 'text <b>', "<a title='q r'>",
+LEFTS = ['', ' ', '\t', 'foo ', 'foo: ', 'x=a.b ', 'width=100% ', 'a=1 b=2\t', 'some text ', 'lorem ipsum dolor sit amet, consectetur adipiscing elit, sed do ' * 3, '<div class="a b c d e f" id="x" data-k="v w" hidden>', '<div>', '<div class="x">', '</p>', '<br/>', '<input disabled>', 'text <b>', "<a title='q r'>",
          '<ul id="a" data-b="c d">', '<DIV CLASS="X Y">', '</P>', '<BR/>', '<Input Disabled>', '<svg:G a:b="c">', '<a\thref="x"\n>', '<p title=\'\'>', '<a b="1"c="2">', '<x-1y>', '<img alt="it\'s" />', '<input value="it\'s" disabled>', "<a onclick='go(\"x\")' b>", '<p title="a\'b\'c" q=1 r>', '<a href="C:\\docs\\" download>',
          '<div class = "a">', '<a href= "x" b>', '<a href ="x">', '<p a = "b" c>', '<a\tb\t=\t"c">', "<a b = 'c' d = 'e'>", '<div a = b>', '<div a= b c>', '<img alt = "">', '<a href=/foo/bar>', '<img src=a/b.png>', '<a href=/x>', '<a href=/x class=y>', '<link href=//cdn.x/y.css>', '<img src="..\\img\\"/>', '<p title="\\" hidden>', "<q a='\\' b>", '<a b="x\\"y" c>', '<div className={styles.box}>', '<button onclick=go()>', '<li v-if=items[0]>', '<a b={x} c=(y)>', '<p a=f(g(1))>', '<q k=[1][2] />', '<img src="a.png" />', '<p hidden>', '</h1>', '<h2 class="x">', '<x1>', '<col-2 a1>', '</ns:t2>']
 LEFTS_D2 = ['<a href=x>', '<div class=y id=z>', '<img src=a.png alt=b>']
